@@ -30,9 +30,10 @@ THEOREMS = ["clamp_bounds", "fwd_ratio", "fwd_supply_ge_delivery", "fwd_reverse_
             "exact_inverse_no_energy", "roundtrip_exact", "roundtrip_exact'", "interp_inverse_partial", "knot_spacing",
             "strict_zero_residual", "array_eq_scalar", "serial_eff_bounds", "serial_equal_ratings", "serial_two_stage",
             "legacy_abscissa_wrong", "machine_roles"]
+THEOREMS += ["serialPoints_abscissae", "serialPoints_sorted", "serialPoints_accepted", "serial_curve_bounds", "serialEta_bounds"]
 THEOREMS += curve_common.CURVE_THEOREMS["C06"]       # the interpolation rule of the curves (FeemsProofs/CurveProps.lean)
-EXTRA_PROOF_MODULES = curve_common.PROOF_MODULES
-DEPENDS_ON_MODULES = curve_common.DEPENDS
+EXTRA_PROOF_MODULES = curve_common.PROOF_MODULES + ["FeemsProofs.C06Serial"]
+DEPENDS_ON_MODULES = curve_common.DEPENDS + ["FeemsProofs.C06Serial"]
 
 
 # ---------------------------------------------------------------- oracles
@@ -498,6 +499,22 @@ def run_case(ctx, case, model=True):
                     if not close(max(min(float(e), 1.0), 0.01), impl, tol=1e-7):
                         ctx.fail("correspondence", "serial-efficiency", f"system load {float(x)}: model product {float(e)} impl {impl}", where)
                         break
+            # ... and, with no oracle at all: the stages' characteristics from their own points, the eleven products, the cubic
+            # through them and the clamp are all computed by the model (`Comp.serialEta`), at and between the sample points
+            if abs(comp.rated_power - stages[0].rated_power) < 1e-9:
+                xs_m = [0.0, 0.05, 0.17, 0.3, 0.33, 0.5, 0.77, 0.95, 1.0]
+                st_m = [{"rated": enc(sc["rated"]), "points": [[enc(a), enc(b)] for a, b in (sc["curve"] if isinstance(sc["curve"][0], list) else [[1.0, sc["curve"][0]]])]}
+                        for sc in case["stages"]]
+                try:
+                    vals = [dec(v) for v in ctx.model.call("comp.serial_modelled", stages=st_m, at=[enc(x) for x in xs_m])]
+                    ctx.count("serial_train_modelled_without_oracle", len(stages))
+                    for x, v in zip(xs_m, vals):
+                        impl = float(comp.get_efficiency_from_load_percentage(x))
+                        if not close(v, impl, tol=1e-9):
+                            ctx.fail("correspondence", "serial-characteristic-modelled", f"system load {x}: model {float(v)} impl {impl}", where)
+                            break
+                except core.ModelReject as e:
+                    ctx.fail("correspondence", "serial-model-rejects", f"{e}", where)
         # predicate: at the sample points the train's efficiency is the product of the stage efficiencies at their own loads
         for kx in range(0, 11):
             x = kx / 10.0
